@@ -155,7 +155,8 @@ def inventory_of(mods: dict[str, Module]) -> dict:
     for name, mod in sorted(mods.items()):
         m: dict = {"functions": {}, "classes": {}, "locals": {q: _stored_locals(fn) for q, _, fn in _functions_of(mod)},
                    "local_defs": {q: _first_defs(fn) for q, _, fn in _functions_of(mod)},
-                   "tokens": {q: _tokens(fn) for q, _, fn in _functions_of(mod)}}
+                   "tokens": {q: _tokens(fn) for q, _, fn in _functions_of(mod)},
+                   "constants": [t.id for node in mod.tree.body if isinstance(node, ast.Assign) for t in node.targets if isinstance(t, ast.Name)]}
         for node in mod.tree.body:
             if isinstance(node, FuncNode):
                 m["functions"][node.name] = _params(node)
@@ -325,6 +326,14 @@ def _single_exit(block: list[ast.stmt], rv: str, depth: int = 0):
             new = ast.copy_location(ast.If(test=st.test, body=a[0] or [ast.Pass()], orelse=b[0]), st)
             out.append(new)
             return out, a[1] and b[1]
+        if isinstance(st, ast.With) and _contains_return([st]):
+            # `with cm: ...; return e` - leaving the block by return or by falling off its end runs the same exit: allowed when the block always returns
+            inner = _single_exit(st.body, rv, depth + 1)
+            if inner is None or not inner[1]:
+                return None
+            new_with = ast.copy_location(ast.With(items=st.items, body=inner[0]), st)
+            out.append(new_with)
+            return out, True
         if isinstance(st, (ast.For, ast.While, ast.Try, ast.With, ast.Match)) and _contains_return([st]):
             return None
         out.append(st)
@@ -1074,6 +1083,149 @@ class _Forward:
         return True
 
 
+# ---------------------------------------------------------------------------------------------------- small structural canonical forms
+def _unroll_literal_loops(mods: dict[str, Module], log: list[str]) -> None:
+    """`for a, b in ((x1, y1), (x2, y2)): body` (a literal display of at most 8 items, no break/continue/else) is read as the unrolled statement sequence."""
+    for mod in mods.values():
+        for q, _, fn in _functions_of(mod):
+            work: list[ast.AST] = [fn]
+            while work:
+                node = work.pop()
+                for fld in ("body", "orelse", "finalbody"):
+                    b = getattr(node, fld, None)
+                    if not (isinstance(b, list) and b and isinstance(b[0], ast.stmt)):
+                        continue
+                    i = 0
+                    while i < len(b):
+                        st = b[i]
+                        if isinstance(st, ast.For) and isinstance(st.iter, (ast.Tuple, ast.List)) and 1 <= len(st.iter.elts) <= 8 and not st.orelse \
+                                and not any(isinstance(n, (ast.Break, ast.Continue)) for n in ast.walk(st)):
+                            tg = st.target
+                            names = [tg] if isinstance(tg, ast.Name) else list(tg.elts) if isinstance(tg, (ast.Tuple, ast.List)) and all(isinstance(x, ast.Name) for x in tg.elts) else None
+                            items = st.iter.elts
+                            ok = names is not None and all(
+                                (isinstance(tg, ast.Name) and _simple(it)) or (not isinstance(tg, ast.Name) and isinstance(it, (ast.Tuple, ast.List)) and len(it.elts) == len(names)
+                                                                                 and all(_simple(x) for x in it.elts)) for it in items)
+                            # the loop variables must not be assigned in the body nor used after the loop
+                            if ok:
+                                nm = {x.id for x in names}
+                                stored = any(isinstance(n, ast.Name) and n.id in nm and isinstance(n.ctx, ast.Store) for s2 in st.body for n in ast.walk(s2))
+                                after = any(isinstance(n, ast.Name) and n.id in nm for s2 in b[i + 1:] for n in ast.walk(s2))
+                                ok = not stored and not after
+                            if ok:
+                                new: list[ast.stmt] = []
+                                for it in items:
+                                    mapping = {names[0].id: it} if isinstance(tg, ast.Name) else {x.id: v for x, v in zip(names, it.elts)}
+                                    sub = _Subst(mapping)
+                                    new.extend(sub.visit(_clone(s2)) for s2 in st.body)
+                                b[i:i + 1] = new
+                                log.append(f"{mod.relpath}:{st.lineno} {q}: loop over a literal display of {len(items)} item(s) unrolled")
+                                i += len(new)
+                                continue
+                        i += 1
+                    for st in b:
+                        if not isinstance(st, (*FuncNode, ast.ClassDef)):
+                            work.append(st)
+                if isinstance(node, ast.Try):
+                    work.extend(node.handlers)
+
+
+def _split_conditional_with(mods: dict[str, Module], log: list[str]) -> None:
+    """`with f(x, mode=A if c else B) as v: body` with a pure test `c` is read as `if c: with f(.., A): body else: with f(.., B): body`, and inside a branch
+    taken under `c` (resp. `not c`) a nested `if c:` keeps only the branch that can run."""
+    def fold(stmts: list[ast.stmt], test_dump: str, truth: bool) -> list[ast.stmt]:
+        out: list[ast.stmt] = []
+        for st in stmts:
+            if isinstance(st, ast.If) and ast.dump(st.test) == test_dump:
+                out.extend(fold(st.body if truth else st.orelse, test_dump, truth))
+                continue
+            if isinstance(st, ast.If) and isinstance(st.test, ast.UnaryOp) and isinstance(st.test.op, ast.Not) and ast.dump(st.test.operand) == test_dump:
+                out.extend(fold(st.orelse if truth else st.body, test_dump, truth))
+                continue
+            for fld in ("body", "orelse", "finalbody"):
+                b = getattr(st, fld, None)
+                if isinstance(b, list) and b and isinstance(b[0], ast.stmt) and not isinstance(st, (*FuncNode, ast.ClassDef)):
+                    setattr(st, fld, fold(b, test_dump, truth) or ([ast.copy_location(ast.Pass(), st)] if fld == "body" else []))
+            out.append(st)
+        return out
+
+    for mod in mods.values():
+        for q, _, fn in _functions_of(mod):
+            work: list[ast.AST] = [fn]
+            while work:
+                node = work.pop()
+                for fld in ("body", "orelse", "finalbody"):
+                    b = getattr(node, fld, None)
+                    if not (isinstance(b, list) and b and isinstance(b[0], ast.stmt)):
+                        continue
+                    for i, st in enumerate(list(b)):
+                        if isinstance(st, ast.With) and len(st.items) == 1:
+                            ies = [n for n in ast.walk(st.items[0].context_expr) if isinstance(n, ast.IfExp)]
+                            if len(ies) == 1 and _pure(ies[0].test):
+                                ie = ies[0]
+                                names, attrs = _reads(ie.test)
+                                # the test must not be invalidated inside the block (re-evaluated by nested ifs)
+                                if any(isinstance(n, ast.Name) and n.id in names and isinstance(n.ctx, ast.Store) for s2 in st.body for n in ast.walk(s2)):
+                                    continue
+                                td = ast.dump(ie.test)
+                                branches = []
+                                for br, truth in ((ie.body, True), (ie.orelse, False)):
+                                    w = _clone(st)
+                                    target_ie = [n for n in ast.walk(w.items[0].context_expr) if isinstance(n, ast.IfExp)][0]
+                                    class R(ast.NodeTransformer):
+                                        def visit_IfExp(self, node):  # noqa: N802
+                                            return _clone(br) if node is target_ie else node
+                                    w.items[0].context_expr = R().visit(w.items[0].context_expr)
+                                    w.body = fold(w.body, td, truth) or [ast.copy_location(ast.Pass(), st)]
+                                    branches.append(w)
+                                new_if = ast.copy_location(ast.If(test=_clone(ie.test), body=[branches[0]], orelse=[branches[1]]), st)
+                                ast.fix_missing_locations(new_if)
+                                b[b.index(st)] = new_if
+                                log.append(f"{mod.relpath}:{st.lineno} {q}: `with` on a conditional argument split into its two cases")
+                    for st in b:
+                        if not isinstance(st, (*FuncNode, ast.ClassDef)):
+                            work.append(st)
+
+
+# ---------------------------------------------------------------------------------------------------- module constants
+def _inline_new_constants(mods: dict[str, Module], inv: dict, log: list[str]) -> None:
+    """A module-level name that the reference tree does not have, bound once to a literal (`_SERIES_FILENAME = "series_samp.h5"`), is read as that literal."""
+    for mod in mods.values():
+        old = inv["modules"].get(mod.name)
+        if old is None or "constants" not in old:
+            continue
+        new_consts: dict[str, ast.expr] = {}
+        for node in mod.tree.body:
+            if isinstance(node, ast.Assign) and len(node.targets) == 1 and isinstance(node.targets[0], ast.Name) and node.targets[0].id not in old["constants"]:
+                v = node.value
+                lit = isinstance(v, ast.Constant) or (isinstance(v, ast.UnaryOp) and isinstance(v.operand, ast.Constant)) or \
+                    (isinstance(v, (ast.Tuple,)) and all(isinstance(x, ast.Constant) for x in v.elts))
+                if lit:
+                    new_consts[node.targets[0].id] = v
+        for name in list(new_consts):
+            stores = sum(1 for n in ast.walk(mod.tree) if isinstance(n, ast.Name) and n.id == name and isinstance(n.ctx, ast.Store))
+            shadow = any(isinstance(n, ast.arg) and n.arg == name for n in ast.walk(mod.tree)) or any(isinstance(n, ast.Global) and name in n.names for n in ast.walk(mod.tree))
+            if stores != 1 or shadow:
+                new_consts.pop(name)
+        if not new_consts:
+            continue
+        sub = _Subst(new_consts)
+        for i, node in enumerate(mod.tree.body):
+            if isinstance(node, ast.Assign) and len(node.targets) == 1 and isinstance(node.targets[0], ast.Name) and node.targets[0].id in new_consts:
+                continue
+            mod.tree.body[i] = sub.visit(node)
+        # other modules importing the constant
+        for other in mods.values():
+            if other is mod:
+                continue
+            imported = {a.asname or a.name: a.name for n in ast.walk(other.tree) if isinstance(n, ast.ImportFrom) and n.module and mod.name.endswith(n.module.lstrip("."))
+                        for a in n.names if a.name in new_consts}
+            if imported:
+                sub2 = _Subst({local: new_consts[orig] for local, orig in imported.items()})
+                other.tree.body = [st if isinstance(st, (ast.Import, ast.ImportFrom)) else sub2.visit(st) for st in other.tree.body]
+        log.append(f"{mod.relpath}: new literal constants read as their values: {sorted(new_consts)}")
+
+
 # ---------------------------------------------------------------------------------------------------- context managers
 def _cm_to_generator(mods: dict[str, Module], log: list[str]) -> None:
     """`def f(...): return K(args)` with K a class-based context manager whose `__exit__` cannot suppress an exception is read as the
@@ -1198,11 +1350,14 @@ def canonicalise(mods: dict[str, Module]) -> dict:
     loc_log: list[str] = []
     cm_log: list[str] = []
     _cm_to_generator(mods, cm_log)
+    _inline_new_constants(mods, inv, cm_log)
     align_locals(mods, inv, loc_log)
     inl = Inliner(mods, inv)
     inl.run()
     fwd_log: list[str] = []
+    _unroll_literal_loops(mods, fwd_log)
     _Forward(mods, inv, fwd_log).run()
+    _split_conditional_with(mods, fwd_log)
     fwd_log.extend(cm_log)
     if ren or loc_log or fwd_log or inl.log:
         for mod in mods.values():
